@@ -78,7 +78,11 @@ func NewSupport() *Support {
 	// and a struct whose variable part is an array
 	holdV := &Record{Kind: Struct, Name: "SupHoldVar", Support: true, Label: "struct:holds-var-struct", Fields: []Field{{Name: "id", Type: P("int32")}, {Name: "v", Type: R(vari)}}}
 	holdA := &Record{Kind: Struct, Name: "SupHoldArr", Support: true, Label: "struct:holds-array", Fields: []Field{{Name: "id", Type: P("uint32")}, {Name: "xs", Type: A(P("int32"))}, {Name: "e", Type: P("byte")}}}
-	s.Records = []*Record{fixed, vari, empty, ro, msg, emsg, un, holdM, holdU, holdV, holdA}
+	// a union one of whose branches occupies no bytes at all (the smallest branch decides the minimum size of the union)
+	uea := &Record{Kind: Struct, Name: "SupUnionEAck", Support: true, Inline: true, Label: "struct:empty"}
+	ueb := &Record{Kind: Struct, Name: "SupUnionEData", Support: true, Inline: true, Label: "struct:var", Fields: []Field{{Name: "s", Type: P("string")}, {Name: "n", Type: P("int64")}}}
+	une := &Record{Kind: Union, Name: "SupUnionE", Support: true, Label: "union:empty-branch", Branches: []Branch{{Disc: 1, Rec: uea}, {Disc: 2, Rec: ueb}}}
+	s.Records = []*Record{fixed, vari, empty, ro, msg, emsg, un, holdM, holdU, holdV, holdA, une}
 	for _, p := range Primitives {
 		s.Leaves = append(s.Leaves, P(p))
 	}
@@ -288,6 +292,18 @@ func (s *Support) Cases(thorough bool) []*Case {
 		Rec: &Record{Kind: Struct, Name: "CXFwdVar", Fields: []Field{{Name: "hops", Type: A(R(fvh))}, after()}}})
 	out = append(out, &Case{ID: "CXFwdVarM", Ctx: "X", Class: "X|forward-declared-var-struct-in-message", Extra: []*Record{fvh, fve},
 		Rec: &Record{Kind: Message, Name: "CXFwdVarM", Fields: []Field{{Name: "hops", Index: 1, Type: A(R(fvh))}, {Name: "after", Index: 2, Type: P("int32")}}}})
+	// structs whose minimum wire size is exactly 256 and 512 bytes (a size table kept in a byte wraps to 0)
+	w256 := &Record{Kind: Struct, Name: "CXWide256", Support: true, Label: "struct:fixed-256-bytes"}
+	for i := 0; i < 16; i++ {
+		w256.Fields = append(w256.Fields, Field{Name: fmt.Sprintf("g%d", i), Type: P("guid")})
+	}
+	w512 := &Record{Kind: Struct, Name: "CXWide512", Support: true, Label: "struct:fixed-512-bytes", Fields: []Field{{Name: "a", Type: R(w256)}, {Name: "b", Type: R(w256)}}}
+	out = append(out, &Case{ID: "CXWide", Ctx: "X", Class: "X|array-of-256-byte-structs", Extra: []*Record{w256, w512},
+		Rec: &Record{Kind: Struct, Name: "CXWide", Fields: []Field{{Name: "f", Type: A(R(w256))}, {Name: "m", Type: M("uint32", R(w512))}, after()}}})
+	out = append(out, &Case{ID: "CXWideM", Ctx: "X", Class: "X|array-of-512-byte-structs-in-message", Extra: []*Record{w256, w512},
+		Rec: &Record{Kind: Message, Name: "CXWideM", Fields: []Field{{Name: "f", Index: 1, Type: A(R(w512))}, {Name: "after", Index: 2, Type: P("int32")}}}})
+	// big arrays of enums (a bulk read of the payload crosses the 4096-byte threshold)
+	sp("CXBigEnum", "big-enum-array", &Record{Kind: Struct, Fields: []Field{{Name: "a", Type: A(E(s.Enums[3]))}, after()}})
 	// recursion through a message / a union
 	rm := &Record{Kind: Message, Name: "CXRecM"}
 	rm.Fields = []Field{{Name: "v", Index: 1, Type: P("int32")}, {Name: "next", Index: 2, Type: R(rm)}, {Name: "kids", Index: 3, Type: A(R(rm))}}
